@@ -27,7 +27,8 @@ pub struct TestRunnerAdapter {
     ctx: Arc<Mutex<CodegenContext>>,
     event_sender: Sender<MachineEvent>,
     event_receiver: Receiver<MachineEvent>,
-    breakpoints: Arc<Mutex<Vec<MachineBreakpoint>>>,
+    /// The breakpoints, together with the source file they were set for
+    breakpoints: Arc<Mutex<Vec<(String, MachineBreakpoint)>>>,
 }
 
 impl TestRunnerAdapter {
@@ -39,7 +40,8 @@ impl TestRunnerAdapter {
     ) -> MosResult<Self> {
         let is_connected = Arc::new(AtomicBool::new(true));
         let state = Arc::new(Mutex::new(MachineRunningState::Launching));
-        let breakpoints: Arc<Mutex<Vec<MachineBreakpoint>>> = Arc::new(Mutex::new(vec![]));
+        let breakpoints: Arc<Mutex<Vec<(String, MachineBreakpoint)>>> =
+            Arc::new(Mutex::new(vec![]));
 
         let (event_sender, event_receiver) = unbounded();
 
@@ -74,7 +76,7 @@ impl TestRunnerAdapter {
                                 let bps = thread_breakpoints.lock().unwrap();
                                 if bps
                                     .iter()
-                                    .any(|bp| bp.range.start <= pc && bp.range.end > pc)
+                                    .any(|(_, bp)| bp.range.start <= pc && bp.range.end > pc)
                                 {
                                     let old = *state;
                                     let new = MachineRunningState::Stopped(pc);
@@ -91,6 +93,9 @@ impl TestRunnerAdapter {
                             let mut runner = thread_runner.write().unwrap();
                             let result = runner.execute_instruction();
                             drop(runner);
+                            // Only the instruction we were stopped at is exempt from the breakpoint check: an instruction
+                            // that jumps to itself has to stop again the next time around
+                            last_checked_pc = None;
                             drop(state);
                             match result {
                                 Ok(result) => {
@@ -277,7 +282,12 @@ impl MachineAdapter for TestRunnerAdapter {
         source_path: &str,
         breakpoints: Vec<MachineBreakpoint>,
     ) -> MosResult<Vec<MachineValidatedBreakpoint>> {
-        *self.breakpoints.lock().unwrap() = breakpoints.clone();
+        {
+            // A request holds all breakpoints of one source file: those of the other files stay
+            let mut all = self.breakpoints.lock().unwrap();
+            all.retain(|(path, _)| path != source_path);
+            all.extend(breakpoints.iter().map(|bp| (source_path.to_string(), bp.clone())));
+        }
         Ok(breakpoints
             .into_iter()
             .enumerate()
